@@ -43,6 +43,36 @@ Definition envT_okb (b : base) (te : Z * ev) : bool :=
   | _ => true
   end.
 
+(* the same without the clause about refresh attempts: that refreshes of a claiming instance succeed is derived
+   (Proofs/SimLeaseC.v); this is the environment of the final theorem *)
+Definition envC_okb (b : base) (te : Z * ev) : bool :=
+  fastb b (fst te) &&
+  match snd te with
+  | EInstDef i key H TTL vi gr mh pr tk mo hh hd bt hp => negb (zb tk) && negb (zb hh) && (0 <? H) && (3 * H <=? bt)
+  | EExtPut _ _ _ | EExtDel _ _ => false
+  | EExpire key rev => no_early_expiry b (fst te) key
+  | EApply op okind rev val =>
+      match aget (b_pend b) op with
+      | Some p => negb ((okind =? oOk) && (p_kind p =? kDelete) && protectedb b (fst te) (p_key p))
+      | None => true
+      end
+  | ERet i op rk rev val => rk <? 10
+  | _ => true
+  end.
+
+Fixpoint envC_admits (b : base) (tr : trace) : bool :=
+  match tr with
+  | [] => true
+  | te :: r => envC_okb b te && envC_admits (bapply b te) r
+  end.
+
+Fixpoint envC_first (b : base) (tr : trace) (idx : Z) : Z :=
+  match tr with
+  | [] => -1
+  | te :: r => if b_ended b then -1 else if envC_okb b te then envC_first (bapply b te) r (idx + 1) else idx
+  end.
+Definition check_envC (tr : trace) : Z := envC_first base0 tr 0.
+
 Fixpoint envT_admits (b : base) (tr : trace) : bool :=
   match tr with
   | [] => true
